@@ -50,6 +50,11 @@ def run(chk, repo, tier):
             for ev in p.events:
                 if ev["kind"] == "miller":
                     nsink += 1
+                    from ..miller import PSym
+                    a0, a1 = (list(ev["args"]) + [None, None])[:2]
+                    if not (isinstance(a0, PSym) and a0.name == "Q" and isinstance(a1, PSym) and a1.name == "P"):
+                        bad.append(f"miller_loop at {ev['where']} is not called on the validated points (Q, P) themselves but on values "
+                                   "computed from their coordinates (the on-curve tests say nothing about those)")
                     if not (has(ev["facts"], onQ, True) and has(ev["facts"], onP, True)):
                         bad.append(f"miller_loop at {ev['where']} reachable without is_on_curve(Q, b2) ∧ is_on_curve(P, b) on path "
                                    f"{' '.join(p.branch_lines())}")
